@@ -23,6 +23,8 @@ type C07Sc struct {
 	Pushes   int           `json:"pushes"`  // 16-bit pushes of the deepest handler
 	HSteps   int           `json:"hsteps"`  // Steps of the longest handler incl. acceptance
 	IOSeed   uint64        `json:"io_seed"`
+	// NilHandlers: the host registers no RETN/RETI notification handlers (nil interface values)
+	NilHandlers bool `json:"nil_handlers,omitempty"`
 	// enumerate: every boundary x each of Kinds. schedule: exactly Events.
 	Kinds  []world.Event `json:"kinds,omitempty"`
 	Events []world.Event `json:"events,omitempty"`
@@ -187,6 +189,7 @@ func (c07) Gen(r *world.Rng, tier string, n int) interface{} {
 	hs := genHandlersAt(r, mode, callAt)
 	sc.Handlers, sc.Table, sc.Pushes, sc.HSteps = hs.Handlers, hs.Table, hs.Pushes, hs.HSteps
 	kinds := hs.Kinds
+	sc.NilHandlers = r.Chance(1, 4)
 	if n%4 != 3 {
 		sc.Mode = "enumerate"
 		sc.Kinds = kinds
@@ -206,7 +209,7 @@ func (c07) Gen(r *world.Rng, tier string, n int) interface{} {
 		switch x := r.Intn(8); {
 		case x < 2:
 			ev.AtTick = uint64(r.Range(1, 1500))
-		case x == 2 && i > 0:
+		case x == 2 && i > 0 && !sc.NilHandlers:
 			ev.OnRet = true // daisy chain: raised from inside the RETI/RETN notification of an earlier handler
 		default:
 			ev.Boundary = r.Intn(c07MaxN/2 + 1)
@@ -246,6 +249,9 @@ func c07Run(sc *C07Sc, evs []world.Event, budget int, env *Env) (*c07Final, *Vio
 		return nil, viol("harness", "bad scenario: %v", err)
 	}
 	m.Bus.KeepPorts = true
+	if sc.NilHandlers {
+		m.CPU.RETNHandler, m.CPU.RETIHandler = nil, nil
+	}
 	f := &c07Final{}
 	for {
 		if m.Steps >= budget {
